@@ -329,6 +329,14 @@ fn fn_templates() -> Vec<FnTemplate> {
             ret: RType::Bool,
         },
         t1("lift", Sem::Lift, Field, RType::Bool, a(RType::Bool)),
+        // callable with an empty argument list: its only parameter is optional
+        FnTemplate {
+            base: "zero",
+            sem: Sem::Add,
+            params: vec![],
+            opts: vec![(Literal, RV::Int(7))],
+            ret: RType::Int,
+        },
         FnTemplate {
             base: "pickb",
             sem: Sem::Pick,
